@@ -182,7 +182,7 @@ def emulated_host(ctx, n_cases, n_values):
         try:
             traditional = not ccommon.root_has_ext(root)
             try:
-                paths = __import__("vlib.emit", fromlist=["write_schema"]).write_schema(root, top, rng=rng)
+                paths = __import__("vlib.emit", fromlist=["write_schema"]).write_schema(root, top, rng=rng, compact=0.15)
                 dstd = os.path.join(top, "std")
                 sut_compiler.compile_schema(root, top, ["c"], outdir=dstd, paths=paths)
                 dirs = {}
